@@ -65,6 +65,7 @@ type world struct {
 	txs      [][]byte          // transactions of the pending block
 	txAhead  map[string]uint64 // per signer: transactions already queued for the pending block
 	txRes    []*abci.ExecTxResult
+	claimTxClosed bool // signed MsgClaim transactions turned out to be undeliverable in this tree: claims go through the router
 	claimTx  []int  // indexes (in the pending block) of the claim transactions of the current event
 	afterCommit func() // txmode: writes the `intx …` lines of the ops the block's transactions carried, before the block's own line
 	exts     []*ecdsa.PrivateKey
